@@ -240,6 +240,38 @@ pub fn gen_jitter_spec(rng: &mut Prng, prop: &str, allowed: &[CF], c16_bias: boo
         clock.readings.truncate(64);
         spec.variant = "jitter_history_long_haul".into();
     }
+    // feedback: a timer reading that EQUALS the value the generator returned just before (the pool), or its
+    // complement / halves swapped - relations between what the timer says and what the generator holds
+    if spec.variant == "jitter_history" && rng.chance(1, 60) {
+        let rounds = rng.range(1, 4) as u8;
+        clock.fork_skews.clear();
+        let probe = std::sync::Arc::new(clock.clone());
+        let mut m = JitterModel::new(ModelClock::new(probe));
+        m.set_rounds(rounds);
+        if let Ok(v) = m.next_u64(STUCK_CAP) {
+            let at = m.reads() as usize + rng.below(5) as usize;
+            while clock.readings.len() <= at + 8 {
+                let i = clock.readings.len() as u64;
+                let r = clock.reading(i);
+                clock.readings.push(r);
+            }
+            clock.readings[at] = match rng.below(6) {
+                0 => !v,
+                1 => v.rotate_left(32),
+                _ => v,
+            };
+            spec.rounds = Some(rounds);
+            spec.ops = vec![Op::U64, match rng.below(5) {
+                0 => Op::TimerStats(true),
+                1 => Op::TimerStats(false),
+                2 => Op::U32,
+                3 => Op::Fill(rng.range(1, 17) as u32),
+                _ => Op::U64,
+            }, Op::U64];
+            marks.clear();
+            spec.variant = "jitter_history_feedback".into();
+        }
+    }
     // a counter that freezes for a very long time inside one value and then resumes: 65 000 .. a few million
     // readings (2^16 .. 2^20 measurements) without a tick - longer than any retry budget would tolerate
     if spec.variant == "jitter_history" && rng.chance(1, 2500) {
